@@ -52,6 +52,12 @@
 #define DEFAULT_TAB_WIDTH 2
 #define DEFAULT_FLOAT_PRECISION 6
 
+/* Size of the buffer for a formatted float: sign, DBL_MAX_10_EXP + 1 integer
+ * digits, decimal point, up to 15 fraction digits, NUL, and the 3 characters
+ * libconfig_format_double() keeps in reserve.
+ */
+#define FLOAT_BUF_SIZE (DBL_MAX_10_EXP + 1 + 32)
+
 /* ------------------------------------------------------------------------- */
 
 #ifndef LIBCONFIG_STATIC
@@ -181,7 +187,7 @@ static void __config_write_value(const config_t *config,
                                  const config_value_t *value, int type,
                                  int format, int depth, FILE *stream)
 {
-  char fbuf[64];
+  char fbuf[FLOAT_BUF_SIZE];
 
   switch(type)
   {
